@@ -223,7 +223,12 @@ pub fn gen_handshake(r: &mut Rng) -> Handshake {
         seq: 1,
         body: HsBody::V41 {
             caps,
-            maxps: r.next() as u32,
+            maxps: match r.below(4) {
+                // the client's max_packet_size says what the CLIENT will send; small values are
+                // legal and must not change how the server frames its output
+                0 => *r.pick(&[0u32, 1, 255, 4096, 65_535, 65_536, 0xFF_FFFE, 0xFF_FFFF, 1 << 24, u32::MAX]),
+                _ => r.next() as u32,
+            },
             collation: r.next() as u8,
             user,
             tail,
@@ -861,6 +866,22 @@ pub fn simple_ok_program() -> Program {
 }
 
 pub fn query_text(r: &mut Rng) -> Blob {
+    if r.chance(2, 5) {
+        // realistic SQL with multi-byte characters at every offset (valid UTF-8 throughout)
+        let heads: &[&str] = &[
+            "SELECT '", "SELECT ", "select ", "do ", "DO ", "SET @a = '", "INSERT INTO t VALUES ('", "S", "", "US", "use",
+            "SELECT @", "SELEC", "SELECT  ", "usé ", "UPDATE t SET c = '",
+        ];
+        let pool = ['é', '€', 'ñ', 'ж', '中', '🦀', 'a', '1', ' ', '\'', ',', 'ß'];
+        let mut t = String::from(*r.pick(heads));
+        for _ in 0..r.below(12) {
+            t.push(*r.pick(&pool));
+        }
+        let v = t.into_bytes();
+        if !v.is_empty() && crate::model::route_query(&v) == crate::model::QRoute::Query {
+            return Blob::Lit(v);
+        }
+    }
     let n = 1 + r.usize_below(40);
     let mut v = b"q".to_vec();
     v.extend(blob_ascii(r, n).to_vec());
